@@ -229,3 +229,21 @@ _EXTRA6 = {
 }
 for _k, _v in _EXTRA6.items():
     PROPS[_k]['text'] = PROPS[_k]['text'].rstrip() + _v
+
+_EXTRA7 = {
+ 'C01': ' Per-pixel reads of the mask scanline happen only under the 32-bit pipeline selector (C01-R9, found defect F21 - fixed); fetchers skip a pixel only when the whole mask word is zero (C01-R10); the 15 float blend functions are bi-homogeneous of degree (1,1) in (source, destination) (C01-R11, dimensional analysis).',
+ 'C02': ' Transform classification flags under solved equality guards (C02-R20); lane consistency of MMX pack8888 (C02-R21).',
+ 'C03': ' The composite region is computed from the caller\'s own source, mask and destination (C03-R10).',
+ 'C05': ' The single-rectangle normalisation is the last change of numRects (C05-R10).',
+ 'C06': ' Normalisation after the last change (C06-R7); no extents recomputation after data = NULL (C06-R8); aliasing guards (C05-R1).',
+ 'C07': ' Clamp constants are the limits of the box coordinate type (C07-R11); extents before the list is dropped (C07-R12).',
+ 'C08': ' Mask reads follow the pipeline width (C08-R15, defect F21); flag guards solved as a linear system (C08-R10).',
+ 'C09': ' Radial gradients are opaque only for a < 0 exactly (C09-R2).',
+ 'C12': ' Saturating-add loops inside the deferred span add fill_size * N_X_FRAC (8) (C12-R10, second clause).',
+ 'C13': ' The coordinate that starts from v.vector[i] steps by matrix[i][0] (C13-R12); radial opacity (C09-R2).',
+ 'C14': ' The gradient hook re-derives the sentinel stops from the current repeat mode (C13-R4).',
+ 'C19': ' In blt every stride * y pairs the stride, the y and the buffer of the same side (C19-R12).',
+ 'C20': ' A region initialised unconditionally by the constructor is finalised under no guard but the reference count (C20-R8).',
+}
+for _k, _v in _EXTRA7.items():
+    PROPS[_k]['text'] = PROPS[_k]['text'].rstrip() + _v
